@@ -512,18 +512,20 @@ func Exec(c *Case) (nontrivial bool, labels []string, fail *vlib.Failure) {
 	lab := []string{"target-" + c.Target}
 	switch c.Target {
 	case "path":
-		p, err := utils.ParsePath(c.PathStr)
-		if err == nil {
-			nontrivial = len(p.GetElem()) > 0
-			_ = utils.ToXPath(p, false)
-			_ = utils.ToXPath(p, true)
-			_ = utils.ToStrings(p, true, false)
-			_, _ = utils.CompletePath(nil, p)
-		}
-		_, _ = utils.StripPathElemPrefix(c.PathStr)
-		_, _ = utils.CompletePathFromString(c.PathStr)
-		_, _ = utils.NormalizedAbsPath(c.PathStr, []*sdcpb.PathElem{{Name: "plain"}, {Name: "l1", Key: map[string]string{"name": "a"}}})
-		return nontrivial, lab, nil
+		f := withDeadline("path-functions", func() {
+			p, err := utils.ParsePath(c.PathStr)
+			if err == nil {
+				nontrivial = len(p.GetElem()) > 0
+				_ = utils.ToXPath(p, false)
+				_ = utils.ToXPath(p, true)
+				_ = utils.ToStrings(p, true, false)
+				_, _ = utils.CompletePath(nil, p)
+			}
+			_, _ = utils.StripPathElemPrefix(c.PathStr)
+			_, _ = utils.CompletePathFromString(c.PathStr)
+			_, _ = utils.NormalizedAbsPath(c.PathStr, []*sdcpb.PathElem{{Name: "plain"}, {Name: "l1", Key: map[string]string{"name": "a"}}})
+		})
+		return nontrivial, lab, f
 	case "set":
 		h := populated(ctx)
 		defer h.DS.Stop()
